@@ -136,6 +136,16 @@ PROPS["C14"] = {
     "design_ref": "DESIGN.md section 5 C14",
 }
 
+PROPS["C02"] = {
+    "world": "ring", "level": "exploration", "quick_s": 25, "thorough_s": 600,
+    "rule": "one evaluation = one lifecycler-driven ring history (plus operator-written entries: token-less, PENDING, LEFT, stale) with RF 1..5, zone-awareness on/off, 1..5 zones; on every ring version and clock advance a fresh client computes Get(key, Write) for the boundary keys and GetReplicationSetForOperation(Read) at the same frozen instant; every minimal acknowledging subset (size |I|-MaxErrors) is intersected with every minimal answering subset (instances, or whole zones); on a sample of states one adversarial pair is played through the real DoBatch and DoUntilQuorum (read-your-writes); non-trivial = both lookups succeeded with non-zero tolerance on both sides; distinct = distinct released-task/action sequence hash among non-trivial runs",
+    "real": _RING_CLIENT_REAL + ["ring.DoBatchWithOptions", "ring.DoUntilQuorum (read-your-writes sample)"], "stub": _RING_STUB + ["replicas of the read-your-writes sample (in-sim stores)"],
+    "assumptions": _ASSUME_COMMON + ["states with more than 9 instances are skipped (exact subset enumeration)", "every instance carries a zone when zone-awareness is on, as the quantifier says"],
+    "level_text": "seeded exploration of reachable ring states; exact enumeration of minimal subset pairs per state; sampling of states, not proof",
+    "level_note": "trusted: simulator engine, subset enumeration; the success criteria of the executors are C10 / C11",
+    "design_ref": "DESIGN.md section 5 C02",
+}
+
 HOOK_COMMITS = []
 
 _PENDING = "claimed in DESIGN.md; check not yet registered (implementation in progress)"
